@@ -13,9 +13,13 @@ import (
 // (inductiveness: --init=<init> --inv=<inv> --length=<n>). Returns
 // "NoError", "Error" (counterexample) or "" (tool failure, with its output).
 func (c *Ctx) runApalache(module, init, inv string, length int) (string, string) {
+	return c.runApalacheNext(module, init, "Next", inv, length)
+}
+
+func (c *Ctx) runApalacheNext(module, init, next, inv string, length int) (string, string) {
 	dir := c.scratchDir()
 	os.WriteFile(filepath.Join(dir, module+".tla"), mustRead(filepath.Join(specDir, module+".tla")), 0o644)
-	cmd := exec.Command("timeout", "300", "apalache-mc", "check", "--init="+init, "--inv="+inv, "--length="+itoa(length), "--out-dir="+filepath.Join(dir, "_out"), module+".tla")
+	cmd := exec.Command("timeout", "300", "apalache-mc", "check", "--init="+init, "--next="+next, "--inv="+inv, "--length="+itoa(length), "--out-dir="+filepath.Join(dir, "_out"), module+".tla")
 	cmd.Dir = dir
 	var out bytes.Buffer
 	cmd.Stdout, cmd.Stderr = &out, &out
